@@ -291,6 +291,10 @@ def run_cases(draw):
             "collapse": collapse,
             "pm": draw(st.sampled_from([0.01, 0.02, 0.05, 0.2])),
             "names": draw(st.sampled_from(NAME_STYLES)),
+            # every parameter also declares an initial_value (the starting point of local optimisers); after bounds
+            # were tightened it may be stale, i.e. lie outside the box: positions relative to the box, None = absent
+            "init": draw(st.one_of(st.none(), st.none(), st.lists(st.sampled_from([0.5, 0.0, 1.0, -0.6, 1.4, 3.0]),
+                                                                      min_size=4, max_size=4))),
             # the box is edited in place after the algorithm object was created (a study re-using one set-up): the
             # box declared when run() starts is the one that counts.  rebox = (shift in widths, scale) of the first box
             "rebox": draw(st.one_of(st.none(), st.none(), st.tuples(st.sampled_from([-3.0, -1.0, 0.0, 0.5, 2.0]),
@@ -331,6 +335,9 @@ def check_run(case):
         for p_, q_ in zip(ps, prec):
             if q_:
                 p_["precision"] = q_
+    if case.get("init"):
+        for p_, b, t_ in zip(ps, boxes, case["init"]):
+            p_["initial_value"] = b[0] + t_ * (b[1] - b[0])
     rebox = case.get("rebox")
     if rebox:
         for p_, b in zip(ps, boxes):
@@ -368,7 +375,8 @@ def check_run(case):
                 raise Violation("runs", "%s:out-of-box" % case["alg"], "%s N=%d G=%d evaluated %r outside %r" % (
                     case["alg"], case["N"], case["G"], v, boxes))
     return {"nt": case["G"] >= 2, "classes": [case["alg"], "failures" if fails else "clean"] + (
-        ["collapsed-population"] if case.get("collapse") else []) + (["periodic-failures"] if case.get("periodic") else []) + (["rebox"] if rebox else [])}
+        ["collapsed-population"] if case.get("collapse") else []) + (["periodic-failures"] if case.get("periodic") else []) + (["rebox"] if rebox else []) + (
+        ["stale-initial-value"] if case.get("init") and any(t_ < 0 or t_ > 1 for t_ in case["init"][:n]) else [])}
 
 
 CLAUSES = [
